@@ -12,7 +12,7 @@ A_DOUBLE = 'A-DOUBLE: the Kani table double /verif/hooks/table.rs implements A-H
 A_PURE = 'A-PURE: heap_size/mem_size are deterministic functions of the value; sizes change only inside mutate'
 A_EQ = 'A-EQ/A-BORROW/A-HASH: the user Eq, Borrow<Q> and Hash/BuildHasher are deterministic and mutually consistent (axioms matches_unique, matches_is_eq, hash_of)'
 A_SIZE = 'A-SIZE: estimates of simultaneously live values add up to <= usize::MAX (needed for entry_size additions and mutate pre-eviction additions)'
-A_CAP = 'A-CAP: 2*capacity() <= usize::MAX; A-HB-CAP: cap_for(n) >= n and cap_for(n) < max(2n, 8) (hashbrown sizing policy, axiom cap_for_bounds)'
+A_CAP = 'A-CAP: 2*capacity() <= usize::MAX; A-HB-CAP: cap_for(n) >= n and cap_for(n) < max(2n, 8) (axiom cap_for_bounds in l2; the same bounds are PROVED for hashbrown\'s own capacity_to_buckets / bucket_mask_to_capacity, extracted from the registry source, in template hbcap; assumed: with_capacity sizes tables with these two functions)'
 A_ARITH = 'machine arithmetic: exact usize semantics in exec code (overflow obligations proved, not assumed); spec arithmetic is mathematical'
 A_UNSAFE = 'unsafe code: all raw-pointer code is outside Verus; in Kani it is executed symbolically within the stated bounds'
 A_MODEL = 'ptr_ent/at are uninterpreted functions of pointer values: sound while the designated entry is not modified and the table not reallocated between production and use (true in L2 by inspection; exercised by sub_* harnesses)'
@@ -39,7 +39,7 @@ PROPS = {
         design='DESIGN.md §5 C03'),
     'C04': dict(
         title='faithful map', level='proof', templates=['l2'],
-        k_quick=['q_sub_get_from_table', 'q_sub_remove_entry', 'q_sub_realloc_grow', 'q_sub_realloc_shrink', 'q_sub_collide', 'q_sub_insert_set_head'],
+        k_quick=['q_sub_get_from_table', 'q_sub_remove_entry', 'q_sub_realloc_grow', 'q_sub_realloc_shrink', 'q_sub_collide', 'q_sub_insert_set_head', 'q_sub_split_hasher'],
         k_thorough=SUB_T + ['q_sub_collide'],
         assumptions=[A_SUB, A_HB, A_DOUBLE, A_EQ, A_MODEL, A_KBOUND,
                      'hashbrown probing under collisions is not decided (A-HB is a dependency contract)'],
@@ -54,14 +54,14 @@ PROPS = {
         design='DESIGN.md §5 C05'),
     'C06': dict(
         title='drop / hand back exactly once', level='model_checking', templates=['l2', 'iter'],
-        k_quick=['q_ledger_remove', 'q_ledger_retain', 'q_ledger_clear_drop', 'q_ledger_realloc', 'q_ledger_clone',
+        k_quick=['q_ledger_remove', 'q_ledger_retain', 'q_ledger_clear_drop', 'q_ledger_clear_mixed', 'q_ledger_realloc', 'q_ledger_clone',
                  'q_ledger_drain', 'q_ledger_into_iter'],
         k_thorough=[],
         assumptions=[A_DOUBLE, A_HB, A_UNSAFE, A_KBOUND,
                      'composite L2 operations: Verus shows every departing entry passes through remove_metadata and is then returned or dropped by safe code (clauses tagged C06); exactly-once for safe code is rustc ownership'],
         design='DESIGN.md §5 C06'),
     'C07': dict(
-        title='list/table coherence and memory safety', level='model_checking', templates=[],
+        title='list/table coherence and memory safety', level='model_checking', templates=['l2'],
         k_quick=SUB_Q + ['q_op_clear', 'q_op_retain', 'q_op_clone', 'q_drain', 'q_iter_link', 'q_sub_collide'],
         k_thorough=SUB_T + ['t_op_clear', 't_op_retain', 't_op_clone', 't_drain', 't_iter_link', 't_op_clone_diverge'],
         assumptions=[A_DOUBLE, A_HB, A_UNSAFE, A_KBOUND,
@@ -99,7 +99,7 @@ PROPS = {
                      'Drain::drop / IntoIter::drop (for-loop over by_ref) are outside Verus: bounded harnesses q_drain, q_ledger_*'],
         design='DESIGN.md §5 C12'),
     'C13': dict(
-        title='capacity management', level='proof', templates=['l2'],
+        title='capacity management', level='proof', templates=['l2', 'hbcap'],
         k_quick=['q_sub_realloc_fail', 'q_sub_realloc_grow', 'q_sub_realloc_shrink'],
         k_thorough=['t_sub_realloc', 't_sub_realloc_fail', 't_sub_shrink_to'],
         assumptions=[A_SUB, A_HB, A_DOUBLE, A_CAP, A_ARITH, A_KBOUND,
